@@ -111,6 +111,13 @@ func newOraEnv(fl *drv.Flags) *oraEnv {
 	}
 	clock := fl.CfgInt("clock", 0) == 1
 	accts[e.users[0]] += ",100btc" // a price denom must have supply
+	if fl.CfgInt("denoms", 0) == 1 {
+		// a consumer is charged the list price in the price's own denom
+		accts[e.users[0]] += ",100eth,100atom"
+		for _, u := range e.users[1:] {
+			accts[u] += ",100btc,100eth,100atom"
+		}
+	}
 	opts := chain.Options{
 		Accounts: accts,
 		MutateGenesis: func(c *chain.Chain, gs simapp.GenesisState) {
@@ -735,6 +742,8 @@ func oracleDriver(mode string, fl *drv.Flags) error {
 		}
 	case "clock":
 		return oraClock(fl, w)
+	case "denoms":
+		return oraDenoms(fl, w)
 	default:
 		return fmt.Errorf("unknown mode %q", mode)
 	}
@@ -742,6 +751,125 @@ func oracleDriver(mode string, fl *drv.Flags) error {
 }
 
 func pick(rng *rand.Rand, xs []string) string { return xs[rng.Intn(len(xs))] }
+
+// oraDenoms (property C11): a short scripted history in which ONE service call names
+// providers whose prices are in four different denoms (stake and three denoms with an
+// exchange-rate feed each).  Everything the service end-blocker derives from the provider
+// list — request ids, fees, charges — must be the same on every replica and in every run;
+// code that groups or visits the providers through a Go map (per price denom, say) is not.
+// Nothing here is validated by TLC; the run is recorded (VERIF_RECORD_DIR) and replayed on
+// replicas.
+func oraDenoms(fl *drv.Flags, w *chain.TraceWriter) error {
+	fl.Cfg["denoms"] = "1"
+	fl.Cfg["users"] = "3"
+	fl.Cfg["provs"] = "3"
+	fl.Cfg["maxtimeout"] = "3"
+	fl.Cfg["funds"] = "500"
+	e := newOraEnv(fl)
+	e.start(w)
+	c := e.c
+	block := func(evs ...chain.M) []chain.TxResult {
+		var txs []chain.Tx
+		for _, ev := range evs {
+			msg, _ := ev["msg"].(sdk.Msg)
+			delete(ev, "msg")
+			if msg == nil {
+				msg = e.msgOf(ev)
+			}
+			txs = append(txs, chain.Tx{Signer: chain.Str(ev, "who"), Msgs: []sdk.Msg{msg}})
+		}
+		res := c.RunBlock(5*time.Second, txs)
+		if res.Halt {
+			panic("denoms run halted: " + res.HaltMsg)
+		}
+		w.Write(oraEvent("BeginBlock", "", ""), res.BeginState)
+		for i, ev := range evs {
+			ev["ok"], ev["panic"] = res.Txs[i].OK, res.Txs[i].Panic
+			w.Write(ev, res.Txs[i].State)
+			e.last = res.Txs[i].State.(chain.M)
+		}
+		w.Write(oraEvent("EndBlock", "", ""), res.EndState)
+		e.last = res.EndState.(chain.M)
+		return res.Txs
+	}
+	denoms := []string{"btc", "eth", "atom"}
+	var evs []chain.M
+	for _, d := range denoms {
+		feed := d + "-" + svcslice.Denom
+		create := oraEvent("CreateFeed", "u1", feed)
+		create["agg"], create["lh"], create["provs"], create["thr"] = "avg", int64(2), []any{"p1"}, int64(1)
+		create["cap"], create["timeout"], create["freq"] = int64(12), int64(1), int64(3)
+		evs = append(evs, create, oraEvent("StartFeed", "u1", feed))
+	}
+	for _, r := range block(evs...) {
+		if !r.OK {
+			return fmt.Errorf("denoms: feed setup failed: %s", r.Log)
+		}
+	}
+	evs = nil
+	for i, d := range denoms {
+		answer := oraEvent("Respond", "p1", d+"-"+svcslice.Denom)
+		answer["kind"], answer["x"] = "val", int64(100_000_000*(i+1)) // 1, 2, 3 stake per unit
+		evs = append(evs, answer)
+	}
+	for _, r := range block(evs...) {
+		if !r.OK {
+			return fmt.Errorf("denoms: feed answer failed: %s", r.Log)
+		}
+	}
+	// the three users bind the feed service at prices in the three denoms (p1..p3 are bound at
+	// a price in stake since genesis)
+	evs = nil
+	for i, who := range []string{"u1", "u2", "u3"} {
+		ev := oraEvent("BindService", who, "")
+		addr := c.Accts[who].Addr.String()
+		ev["msg"] = &servicetypes.MsgBindService{ServiceName: svcName, Provider: addr, Owner: addr,
+			Deposit: sdk.NewCoins(sdk.NewInt64Coin(svcslice.Denom, 40)), Pricing: fmt.Sprintf(`{"price":"1%s"}`, denoms[i]), QoS: 1, Options: "{}"}
+		evs = append(evs, ev)
+	}
+	for _, r := range block(evs...) {
+		if !r.OK {
+			return fmt.Errorf("denoms: binding failed: %s", r.Log)
+		}
+	}
+	// one call naming providers of all four price denoms, twice (two consumers), then blocks
+	// in which the requests are issued, left unanswered and expire
+	addrs := func(names ...string) (out []string) {
+		for _, who := range names {
+			out = append(out, c.Accts[who].Addr.String())
+		}
+		return
+	}
+	call := func(who string, ps []string) chain.M {
+		ev := oraEvent("CallService", who, "")
+		ev["msg"] = &servicetypes.MsgCallService{ServiceName: svcName, Providers: ps,
+			Consumer: c.Accts[who].Addr.String(), Input: `{"header":{},"body":{}}`,
+			ServiceFeeCap: sdk.NewCoins(sdk.NewInt64Coin(svcslice.Denom, 40)), Timeout: 2}
+		return ev
+	}
+	rs := block(call("u1", addrs("u3", "p2", "u2", "p3")), call("u3", addrs("u1", "p3", "u2", "p2")))
+	for _, r := range rs {
+		if !r.OK {
+			return fmt.Errorf("denoms: CallService failed: %s", r.Log)
+		}
+	}
+	n := 0
+	perCtx := map[string]int{}
+	c.K.Service.IterateRequests(c.Ctx(), func(id tmbytes.HexBytes, r servicetypes.CompactRequest) bool {
+		n++
+		perCtx[r.RequestContextId]++
+		return false
+	})
+
+	fmt.Printf("denoms: %d requests active after the call block\n", n)
+	if n < 8 {
+		return fmt.Errorf("denoms: expected the eight requests of both calls to exist, got %d", n)
+	}
+	for i := 0; i < 4; i++ {
+		block()
+	}
+	return nil
+}
 
 // randomValue: small integers of units, residue-rich 8-decimal numbers of either
 // sign, up to +-3.4 (the range in which every clause stays below 2^31 in TLC).
